@@ -274,6 +274,11 @@ class Run:
                 return _nonmsg(h["val"], h["k"], aiocoap)
             if o == "rfail":
                 return _rfail(h["how"], h["k"], aiocoap)
+            if o == "unenc":
+                # a message that only fails when it is serialised: str payload, or an option value out of range
+                if h["how"] == "payload":
+                    return aiocoap.Message(code=aiocoap.Code(69), payload=secret(h["k"]))
+                return aiocoap.Message(code=aiocoap.Code(69), payload=b"x", max_age=-5)
             if o == "cancel":
                 raise asyncio.CancelledError()
             raise AssertionError("unknown outcome " + o)
